@@ -496,6 +496,8 @@ def gen_values(rng, tier, hist, per_kind=None):
     out += big_incompressible(rng, tier, hist)
     out += chunk_boundary_values(rng, tier, hist)
     out += grid_cap_values(rng, tier, hist)
+    for name, where in THRESHOLDS.items():       # the audit of numeric thresholds, into the evidence
+        hist["threshold:%s -> %s" % (name, where)] = 1
     # the witnesses of the Lean `_counterexample` theorems, replayed on the real library on every run
     out.append(("v1.track", dict(sr="3ff0000000000000", sc=255, loud=None, key=0)))     # C03_v1_track_roundtrip_counterexample
     out.append(("v1.beat", dict(sr=NEGZERO, sc=None, dflt=[], adj=[])))                  # C03_v1_beat_roundtrip_counterexample
